@@ -299,6 +299,7 @@ func (e *Engine) switchThread(st *State, blocked bool) bool {
 		}
 		e.Blocked++
 		if st.syncInt["mustBlock"] == 1 || st.syncInt["blockedOK"] == 1 {
+			e.Asserts++ // the expected-to-block obligation (vpMustBlock / vpBlockedOK) is raised and met here
 			e.Discharged++
 			return false
 		}
